@@ -1,2 +1,18 @@
-import AlgoVerif.Common
-/-! # C01 — property theorems (none yet) -/
+import AlgoVerif.Proofs.C01Bst
+/-!
+# C01 — ordered symbol tables behave as a sorted map on every operation history
+
+`run kind cmp eqVal ops` executes the history `ops` on two fresh tables of the Model
+(`Model/C01.lean`, the transcription of `symboltable/{bst,avl,red_black}.go`); `Spec.accepts` says that
+the abstract sorted map (`Spec/C01.lean`) admits the sequence of results.  The theorems say: for
+every lawful comparator, every value equality, every finite history of API calls (every predicate,
+every argument), the Model neither panics nor diverges and every result is the one the abstract
+sorted map gives.
+-/
+open AlgoVerif AlgoVerif.C01
+
+theorem C01_bst {K V : Type} (cmp : K → K → Int) (h : LawfulCmp cmp) (eqVal : V → V → Bool)
+    (ops : List (Op K V)) :
+    ∃ s outs, run .bst cmp eqVal ops = .ok (s, outs) ∧ Spec.accepts cmp eqVal ([], []) ops outs := by
+  obtain ⟨s, outs, e, -, acc⟩ := runFrom_ok (bst_kindOK h) h eqVal ops (.nil, .nil) ⟨inv_nil, inv_nil⟩
+  exact ⟨s, outs, e, acc⟩
